@@ -7,6 +7,9 @@
 import FordModel.CallsTable
 import FordModel.Spec.Calls
 import FordModel.Lemmas.Calls
+import FordModel.CallsLine
+import FordModel.Spec.CallsLine
+import FordModel.Lemmas.CallsLine
 namespace Ford.C08
 open Ford Ford.Calls Ford.CallsSpec
 
@@ -181,6 +184,45 @@ theorem labelled_call_witness :
 /-- The selector of a computed GO TO is not scanned
     (finding C08-computed-goto-selector-not-scanned). -/
 theorem computed_goto_witness : recordedOf ["go to (10, 20) fa(1)"] = [] := by
+  decide +kernel
+
+/-- **`;`-separated statements are exactly the statements.**  For every non-empty list of
+    statement texts (`StmtText`: characters outside literals other than quotes and `;`, and
+    literals `q body q` of either quote kind whose body is *any* text without `q` - the other
+    quote character, `;`, call-like text, …) the line obtained by joining them with `;` is
+    split by `quote_split` into exactly these statements: every `;` between two statements
+    separates, no `;` inside a literal does, and a quote character of the other kind inside a
+    literal neither ends it nor opens one.  No bound on the number or length of statements. -/
+theorem semicolon_line_is_its_statements (ss : List Str) (hne : ss ≠ []) (h : ∀ s ∈ ss, StmtText s) :
+    quoteSplit ';' (joinSep ';' ss) = ss :=
+  quoteSplit_join_stmts ss hne h
+
+/-- **A `;` inside a character literal never separates statements** - whatever else the
+    literal holds (an apostrophe inside `"…"`, a `"` inside `'…'`, call-like text), and
+    wherever the literal stands in the statement. -/
+theorem semicolon_inside_literal_never_splits (pre body post : Str) (q : Char) (hq : isQuote q = true)
+    (hpre : StmtText pre) (hb : q ∉ body) (hpost : StmtText post) :
+    quoteSplit ';' (pre ++ q :: (body ++ q :: post)) = [pre ++ q :: (body ++ q :: post)] :=
+  quoteSplit_join_stmts [_] (by simp)
+    (by intro t ht; simp at ht; subst ht; exact stmtText_append _ _ hpre (.lit q body post hq hb hpost))
+
+/-- **Calls on `;`-separated lines are recorded as if every statement stood on its own line.**
+    A unit body given as logical lines, each the `;`-join of any number of statement texts,
+    records exactly what the list of these statements (blank ones dropped, each stripped)
+    records: nothing is lost behind a literal, and no text of a literal becomes a statement. -/
+theorem semicolon_lines_record_as_statements (groups : List (List Str))
+    (h : ∀ g ∈ groups, ∀ s ∈ g, StmtText s) :
+    recordedLines (groups.map (joinSep ';')) =
+      recorded ((groups.flatten.filter (fun f => !f.isEmpty)).map strip) := by
+  simp only [recordedLines, unitStatements_join groups h]
+
+/-- Non-vacuity over the generated tables: an apostrophe and a `;` followed by call-like text
+    inside a `"…"` literal; a literal holding an apostrophe followed by a real `;` and a CALL
+    without argument list; the mirrored spellings. -/
+theorem semicolon_literal_lines_record_exactly :
+    recordedOfLines ["call log_it(\"can't continue; call recover(x)\")"] = [["log_it"]] ∧
+      recordedOfLines ["print *, \"it's over\"; call finish"] = [["finish"]] ∧
+      recordedOfLines ["call sa('say \"no; x = fa(1)'); y = fb(2) ;; call sb"] = [["sa"], ["fb"], ["sb"]] := by
   decide +kernel
 
 /-- **Text inside a character literal is inert.**  The statement the cascade and the scanner
